@@ -603,7 +603,12 @@ class UnitBuilder:
                     ins.append((shape.tail_start - base, 0, key))
                 elif key == "end_of_body":
                     if shape.tail_start is not None:
-                        raise AnchorLost(f"{item_id}: end_of_body used but function has a tail expression")
+                        # a unit function whose last statement is a block-like `if/match/while/for/loop`
+                        # written without `;` has no value-carrying tail: the end of the body is still an anchor
+                        tail_txt = text[shape.tail_start:shape.body_close].lstrip()
+                        unit_fn = "->" not in sig_text
+                        if not (unit_fn and re.match(r"(if|match|while|for|loop|unsafe)\b", tail_txt)):
+                            raise AnchorLost(f"{item_id}: end_of_body used but function has a tail expression")
                     ins.append((shape.body_close - base, 0, key))
             ins.sort()
             # declared loops must all carry a contract if any loop exists and the fn is verified
